@@ -24,9 +24,66 @@ CLAIMED = {
          "separator combinations, affixes) and random mutated timestamps go through the library's authenticator factory; "
          "TLC re-parses each recorded string and requires the exact UTC instant, compact UTC line and scope date, or the "
          "ISO-8601 error, with stated don't-cares.", "5 C16"),
+ "C01": ("SigV4.tla OkSound + Request.tla byte-level reading; TLC-signed requests mutated after signing; TLC trace validation with symbolic crypto",
+         "Every hex digit of the signature flipped, length/case changes, and every byte of URI, header values and body of a "
+         "validly signed request changed in turn, plus structural edits and key changes, on both carriers; acceptance is "
+         "decided by TLC from the wire bytes: the presented signature must be the harness-evaluated HMAC of exactly the "
+         "specification's string-to-sign (Dolev-Yao reading), every exposed stage (canonical request, string-to-sign) must "
+         "equal the specification's bytes.", "5 C01"),
+ "C02": ("reference signer Wire.tla + spelling law on Request!Q; TLC-enumerated respellings replayed; TLC trace validation",
+         "Requests signed by the specification's own signer in 12 wire spellings x 3 logical requests x both carriers x clock "
+         "at the window edges, and a grid of valid request shapes, must all be accepted; the spelling law is model-checked "
+         "on the specification for every generated case.", "5 C02"),
+ "C03": ("Request.tla rules 12-13 + SigV4.tla ProviderArgs; foreign-scope-signed requests replayed; TLC trace validation",
+         "31 credential scopes x 3 server configurations x both carriers, each signed with the key of the scope it names, and "
+         "timestamps around midnight UTC; TLC checks kind/status and the exact arguments the provider receives.", "5 C03"),
+ "C04": ("Civil.tla instant arithmetic (Fresh/Expired/TooNew); every whole-second offset and ns probes replayed; TLC trace validation",
+         "Every whole-second offset around both bounds (quick +-[880,920] s, thorough [-1200,1200] s x 6 server instants), "
+         "1 ns and 0.5 s probes, 5 textual renderings, both carriers; accept iff inside the inclusive window, otherwise "
+         "expired / not-yet-current with zero provider calls.", "5 C04"),
+ "C05": ("Request!SignedOk requirements predicate; requirement sets x header sets x signed lists replayed; TLC trace validation",
+         "All 64 requirement-set combinations in three letter cases through the three container construction routes, with "
+         "correctly signed requests that omit required headers from the list; container operation sequences are checked "
+         "against a case-insensitive set model (C08 run).", "5 C05"),
+ "C08": ("totality: a panic event matches no action of any trace specification; size ladder, charset labels, degenerate inputs, seeded fuzz",
+         "Panics are caught at the harness boundary and logged as data; no trace specification has an action for them. "
+         "Covers the URI-length ladder around 65534, every charset label, secrets x capacities, the error table, builders, "
+         "degenerate URIs/headers and seeded byte-level requests (which also get the full Trace_Req oracle).", "5 C08"),
+ "C11": ("Headers.tla NormValue/HeaderBlock; header edits after signing replayed; TLC trace validation",
+         "Header-value normal form laws model-checked; every value over a 6-symbol alphabet through normalize_header_value; "
+         "every byte of every header value of a signed request changed, values swapped/dropped/duplicated, unsigned headers "
+         "added/removed/changed, respacing, name case and arrival order: TLC decides from the wire which edits must be "
+         "accepted and which refused.", "5 C11"),
+ "C12": ("Request.tla form folding (content type, charset, UTF-8, merge); URL x body parameter lists replayed; TLC trace validation",
+         "URL and body parameter lists (incl. the same name in both) x 13 content types x folding on/off x body validity x a "
+         "post-signing body flip, both carriers; TLC checks accept/refuse, error kind, and that the returned URI carries "
+         "exactly the merged parameters.", "5 C12"),
+ "C13": ("SigV4.tla Precedence/Taxonomy model-checked over all defect subsets; one wire request per subset replayed; TLC trace validation",
+         "Precedence and taxonomy are invariants of the pipeline machine checked for every subset of simultaneous defects; "
+         "each subset (pairs in quick, all 2^14 in thorough) is rendered on the wire on both carriers with 3 witnesses per "
+         "rule, TLC asserts the byte-level reading reports the minimum defect and validates kind/code/status returned by "
+         "the library.", "5 C13"),
+ "C14": ("SigV4.tla provider process (ProviderOnce/Last, CallOnlyWhenReady, CallsExact, liveness); scripted provider traces validated by TLC",
+         "Provider behaviours (delayed readiness, delayed answer, SignatureError kinds, foreign errors) as a process in the "
+         "model with histories sharing one provider; 1620 scripts x defects replayed with an instrumented provider whose "
+         "PollReady/Call/PollFuture events are the model's provider actions.", "5 C14"),
+ "C15": ("Trace_Req!RetOk pass-through predicate; methods x versions x header multisets x body types replayed; TLC trace validation",
+         "Returned method, version, header list, body and URI compared byte for byte with what was submitted (folded: empty "
+         "body and exactly the merged parameters), principal and session data with what the provider supplied.", "5 C15"),
+ "C17": ("taint events + Trace_Req!NoLeak; capturing logger and Debug/Display renders scanned for key material; TLC trace validation",
+         "Log records at every level, error Display/Debug and Debug of intermediate public values are scanned for the secret, "
+         "all derived keys and the server-computed signature in raw/hex/base64 forms; TLC applies NoLeak per event.", "5 C17"),
+ "C18": ("Reentrancy.tla model-checked (Once-guarded globals, hash seeds); reference-validated corpus re-run across threads and processes; Trace_Det",
+         "Deadlock-freedom, termination and seed/interleaving independence model-checked; a corpus validated by Trace_Req is "
+         "re-validated from 2-16 threads released together and in fresh processes, every outcome digest must equal the "
+         "reference's.", "5 C18"),
+ "C19": ("Request.tla selection rules (first header, last-wins inside, first query value); duplicated-input requests replayed; TLC trace validation",
+         "33 requests with one authentication input duplicated in both orders, signed so that exactly one selection is "
+         "valid.", "5 C19"),
 }
 
-NOT_YET = {}
+NOT_YET = {"C07": "the ptrace instruction-trace check (CtEq.tla model + conform ctrace) is being calibrated; not registered until its "
+                  "measurement is stable on the unchanged tree"}
 
 def main():
     checks = []
